@@ -711,9 +711,9 @@ def sf_post_evaluate(p):
     st = run.setup
     calls = [c for c in base_calls(run) if not c['raised']]
     ok = len(calls) == 1 and same_batch(calls[0], st)
-    out = [(R + 'delegates_once', z3.BoolVal(ok))]
     if not ok:
-        return out
+        raise Unsupported('evaluate does not hand the batch to the wrapped experimenter exactly once (shape outside this contract)')
+    out = [(R + 'delegates_once', z3.BoolVal(ok))]
     B, F, xs = calls[0]['post'], G(run), st.xs
     fl = run.flag
     dom, val, value = X.MDI.dom, X.MDI.val, X.MetricS.value
@@ -937,9 +937,9 @@ def sf_post_involution(p):
     st = run.setup
     calls = [c for c in base_calls(run) if not c['raised']]
     ok = len(calls) == 1 and same_batch(calls[0], st)
-    out = [(R + 'delegates_once', z3.BoolVal(ok))]
     if not ok:
-        return out
+        raise Unsupported('evaluate does not hand the batch to the wrapped experimenter exactly once (shape outside this contract)')
+    out = [(R + 'delegates_once', z3.BoolVal(ok))]
     B, F, xs = calls[0]['post'], G(run), st.xs
     dom, val, value = X.MDI.dom, X.MDI.val, X.MetricS.value
 
@@ -1068,9 +1068,9 @@ def wr_post(R, mapped, extra=None):
         st = run.setup
         calls = [c for c in base_calls(run) if not c['raised']]
         ok = len(calls) == 1 and same_batch(calls[0], st)
-        out = [(R + 'delegates_once', z3.BoolVal(ok))]
         if not ok:
-            return out
+            raise Unsupported('evaluate does not hand the batch to the wrapped experimenter exactly once (shape outside this contract)')
+        out = [(R + 'delegates_once', z3.BoolVal(ok))]
         c = calls[0]
         B, F, xs, H0 = c['post'], G(run), st.xs, st.H0
         out += [(R + 'evaluates_base_at_mapped_point', QJ(xs, lambda j, r: mapped(run, H0['params'][r], c['pre']['params'][r]))),
@@ -1580,9 +1580,9 @@ def hc_post(p):
     st = run.setup
     calls = [c for c in base_calls(run) if not c['raised']]
     ok = len(calls) == 1
-    out = [(R + 'delegates_once', z3.BoolVal(ok))]
     if not ok:
-        return out
+        raise Unsupported('evaluate does not hand the batch to the wrapped experimenter exactly once (shape outside this contract)')
+    out = [(R + 'delegates_once', z3.BoolVal(ok))]
     c = calls[0]
     cs, B, F, xs, H0 = c['xs'], c['post'], G(run), st.xs, st.H0
     conv, evconv = hc_convs(run.w)
@@ -1733,9 +1733,9 @@ def nz_post(p):
     st = run.setup
     calls = [c for c in base_calls(run) if not c['raised']]
     ok = len(calls) == 1 and same_batch(calls[0], st)
-    out = [(R + 'delegates_once', z3.BoolVal(ok))]
     if not ok:
-        return out
+        raise Unsupported('evaluate does not hand the batch to the wrapped experimenter exactly once (shape outside this contract)')
+    out = [(R + 'delegates_once', z3.BoolVal(ok))]
     B, F, xs = calls[0]['post'], G(run), st.xs
     dom, val, value = X.MDI.dom, X.MDI.val, X.MetricS.value
     had = lambda r, s: z3.And(B['fmset'][r], dom(B['metrics'][r])[s])
@@ -1910,8 +1910,8 @@ def noisy_frame_obligations(chk):
                           'base': {'params': [{'name': 'x'}], 'metrics': [{'name': 'obj', 'goal': 'MINIMIZE'}]}, 'batch': [{'params': {'x': 0.5}}]}
                     obs = run_replay(sc)
                     rep = (not obs['reproducible']) if 'reproducible' in obs else None
-                    chk.obligation(name, entry['qual'], 'frame', report.VIOLATED, dt / 2, detail=dict(detail, violations=bad[:6]),
-                                   model='\n'.join(bad), replay={'scenario': sc, 'observed': obs}, reproduced=True if rep else None)
+                    chk.obligation(name, entry['qual'], 'frame', report.VIOLATED, dt / 2, detail=dict(detail, violations=[str(b) for b in bad[:6]]),
+                                   model='\n'.join(str(b) for b in bad), replay={'scenario': sc, 'observed': obs}, reproduced=True if rep else None)
     finally:
         c14.EXPAND = old
 
@@ -2015,9 +2015,9 @@ def no_post(p):
     st = run.setup
     calls = [c for c in base_calls(run) if not c['raised']]
     ok = len(calls) == 1 and same_batch(calls[0], st)
-    out = [(R + 'delegates_once', z3.BoolVal(ok))]
     if not ok:
-        return out
+        raise Unsupported('evaluate does not hand the batch to the wrapped experimenter exactly once (shape outside this contract)')
+    out = [(R + 'delegates_once', z3.BoolVal(ok))]
     B, F, xs = calls[0]['post'], G(run), st.xs
     dom, val, value = X.MDI.dom, X.MDI.val, X.MetricS.value
     sfx = no_sfx()
@@ -2193,14 +2193,14 @@ def pb_post(p):
         return []
     tabs = [v for v in run.w.attrs.values() if isinstance(v, M.PyDict)]
     if len(tabs) != 1:
-        return [(R + 'bijection', z3.BoolVal(False))]
+        raise Unsupported('cannot identify the permutation table built by PermutingExperimenter.__init__')
     out = []
     rows = tabs[0].items()
     clauses, types = [], []
     for key, rm in rows:
         cfg = [c for nm, c in run.cfgs.values() if c.name.eq(key)]
         if not isinstance(rm, X.RawMap) or len(cfg) != 1:
-            return [(R + 'bijection', z3.BoolVal(False))]
+            raise Unsupported('the permutation of a parameter is not built as a dict over its feasible values (%r)' % (rm,))
         F = cfg[0].fv
         j, k, v = z3.Int('j!pb'), z3.Int('k!pb'), z3.Const('v!pb', X.PVal)
         perm = [q for q in getattr(run, 'permutations', []) if q.source is F]
@@ -2214,7 +2214,7 @@ def pb_post(p):
             tau = perm[-1].tau
             clauses.append(z3.ForAll([j], z3.Implies(inr(j), z3.And(rm.dom[F.arr[tau[j]]], rm.val[F.arr[tau[j]]] == F.arr[j]))))   # surjective
         else:
-            clauses.append(z3.BoolVal(False))
+            raise Unsupported('the permutation dict is not built from rng.permuted(feasible_values)')
         # numpy scalar types: np.float64 is a float, np.str_ is a str, np.int64 is NOT an int (ParameterValue accepts str|int|float|bool)
         types.append(z3.Or(cfg[0].tag == 0, cfg[0].tag == 1))
     all_names = z3.And(*[z3.Or(*[key == n for key, _ in rows]) for n in run.names]) if rows else z3.BoolVal(False)
@@ -2236,6 +2236,75 @@ def units_permuting_bijection():
     if f is not None:
         known[n] = (f['what'], pb_int_class)
     return [Unit('PermutingExperimenter.__init__(bijection)', 'Permuting', [(PE, 'PermutingExperimenter.__init__')], pb_entry, pb_post, known=known)]
+
+
+# =========================================================================================== SwitchExperimenter.evaluate
+def sw_metric_name(w):
+    hits = [v for k, v in w.attrs.items() if isinstance(v, str) and 'metric' in k] + [v for k, v in w.attrs.items() if z3.is_expr(v) and v.sort() == Str]
+    if len(hits) != 1:
+        raise Unsupported('cannot identify the switch metric name')
+    return pm._lift(hits[0], Str)
+
+
+def sw_inv(it, fr, ctx):
+    run = it.run
+    xs = loop_batch(ctx)
+    mname = sw_metric_name(self_of(fr))
+    cur, ent = G(run), entry_heap(ctx)
+    s = z3.Const('s!sw', Str)
+
+    def done(r):
+        completed = z3.And(cur['fmset'][r], z3.ForAll([s], X.MDI.dom(cur['metrics'][r])[s] == (s == mname)))
+        if getattr(run, 'base_never_infeasible', False):
+            # residual run (trials not infeasible before, wrapped experimenters mark none infeasible): every processed trial is completed
+            return z3.And(cur['params'][r] == ent['params'][r], cur['infeas'][r] == ent['infeas'][r], z3.Or(completed, ent['infeas'][r]))
+        return z3.And(cur['params'][r] == ent['params'][r], cur['infeas'][r] == ent['infeas'][r], z3.Or(trial_unchanged(cur, ent, r), completed))
+    return batch_loop_frame(run, ctx, xs, cur, ent, done)
+
+
+E.LOOPS[(SW, 'SwitchExperimenter.evaluate', 1)] = E.LoopSpec(sw_inv, ghost=X.ALL)
+
+
+def sw_entry(never_infeasible=False):
+    def entry(it):
+        st = Setup(it, nbases=2)
+        run = it.run
+        run.w = sw_construct(it, st)
+        run.constructed = True
+        run.base_never_infeasible = never_infeasible
+        st.H0 = G(run)
+        if never_infeasible:
+            # residual class: the given trials are not yet completed / infeasible and the wrapped experimenters mark none infeasible
+            j = z3.Int('j!swp')
+            run.axiom(z3.ForAll([j], z3.Implies(z3.And(j >= 0, j < st.xs.n), z3.Not(st.H0['infeas'][st.xs.arr[j]]))))
+
+        def hook(it_, call):
+            conc = getattr(call['xs'], 'conc', None) or []
+            ok = len(conc) == 1
+            f = z3.And(z3.Not(st.H0['talloc'][conc[0].term]), z3.BoolVal(True)) if ok else z3.BoolVal(False)
+            it_.run.oblige('C20.Switch.evaluate.delegates_a_copy', f)
+        run.on_base_evaluate = hook
+        return call_method(it, run.w, 'evaluate', [st.xs])
+    return entry
+
+
+def sw_post(p):
+    R = 'C20.Switch.evaluate.'
+    run = p.run
+    if p.kind != 'return':
+        return []
+    mname = sw_metric_name(run.w)
+    return post_common(R, p, wrapper_names=lambda s: s == mname)
+
+
+def units_switch():
+    R = 'C20.Switch.evaluate.'
+    rknown = {}
+    f = CHK.finding_for(R + 'completes') if CHK is not None else None
+    if f is not None:
+        rknown[R + 'completes'] = f['what']
+    return [Unit('SwitchExperimenter.evaluate', 'Switch', [(SW, 'SwitchExperimenter.evaluate'), (SW, 'SwitchExperimenter.__attrs_post_init__')],
+                 sw_entry(), sw_post, rentry=sw_entry(never_infeasible=True), rknown=rknown)]
 
 
 # =========================================================================================== loop contracts by shape (refactoring robustness)
@@ -2263,9 +2332,61 @@ def loop_fallback(it, fr, node, iterable, key):
 X.LOOP_FALLBACK[0] = loop_fallback
 
 
+# =========================================================================================== reported, not obligations
+def native_notes(chk):
+    """what the real code does on paths the property does not constrain (reported in the evidence, never a verdict):
+       * the wrapped experimenter raises inside a save/transform/delegate/restore wrapper: are the parameters restored?
+       * the recorded findings' witness programs still fail?"""
+    base = {'params': [{'name': 'a'}, {'name': 'b'}], 'metrics': [{'name': 'obj', 'goal': 'MINIMIZE'}], 'raises_on_call': 0}
+    layers = {
+        'Shifting': {'module': 'shifting_experimenter', 'class': 'ShiftingExperimenter', 'kwargs': {'shift': [0.05, 0.05]}},
+        'Discretizing': {'module': 'discretizing_experimenter', 'class': 'DiscretizingExperimenter', 'kwargs': {'discretization': {'a': ['0.25', '0.5']}}},
+        'Sparse': {'module': 'sparse_experimenter', 'class': 'SparseExperimenter', 'kwargs': {'prefix': '_SP', 'sparse_params': [{'name': 'q'}]}},
+        'Permuting': {'module': 'permuting_experimenter', 'class': 'PermutingExperimenter', 'kwargs': {'parameters_to_permute': ['a'], 'seed': 5}},
+    }
+    scs = []
+    for k, layer in layers.items():
+        b = json.loads(json.dumps(base))
+        params = {'a': 0.25, 'b': 0.5}
+        if k == 'Discretizing':
+            params = {'a': '0.25', 'b': 0.5}
+        if k == 'Sparse':
+            params = {'a': 0.25, 'b': 0.5, '_SP_q': 0.1}
+        if k == 'Permuting':
+            b['params'] = [{'name': 'a', 'type': 'DISCRETE', 'feasible': [0.25, 0.5, 0.75]}, {'name': 'b'}]
+        scs.append({'kind': 'evaluate', 'base': b, 'wrappers': [layer], 'batch': [{'params': params}], 'script': []})
+    obs = run_replay({'kind': 'multi', 'scenarios': scs})
+    res = obs.get('results') or []
+    lines = []
+    for (k, _), o in zip(layers.items(), res):
+        if 'after' not in o:
+            lines.append('%s: no observation (%s)' % (k, str(o)[:120]))
+            continue
+        restored = all(a['params'] == b['params'] and a['param_types'] == b['param_types'] for a, b in zip(o['after'], o['before']))
+        lines.append('%s: %s' % (k, 'parameters restored' if restored else 'parameters NOT restored (trial keeps the transformed parameters %s)' % o['after'][0]['params']))
+    chk.note('EXCEPTION PATHS (reported, not an obligation -- the property describes completed evaluations): when the wrapped experimenter '
+             'raises inside evaluate(), the exception propagates and the wrappers do not restore the saved parameters (no try/finally) -- native '
+             'observation: ' + '; '.join(lines) + '.')
+    chk.extra['exception_paths'] = lines
+    fo = run_replay({'kind': 'finding'})
+    still = {r['obligation']: r['reproduced'] for r in fo.get('results', [])}
+    chk.extra['known_finding_witnesses'] = still
+    chk.note('known-finding witness programs re-run on this tree: %s.' % ', '.join('%s=%s' % (k.replace('C20.', ''), 'fails (finding present)' if v else 'passes') for k, v in sorted(still.items())))
+    chk.note('NOT COVERED: numeric faithfulness of BBOB / Branin / Hartmann / SimpleKD and of the converters (floating-point algebra: not claimed); '
+             'MultiObjectiveExperimenter.evaluate and MultiObjectiveNumpyExperimenter (a list of fresh Measurement objects of symbolic length is outside the heap '
+             'model; natively: a wrapped experimenter that marks a trial infeasible makes MultiObjectiveExperimenter.evaluate raise KeyError or lose the mark); '
+             'the search-space construction in the wrappers\' __init__ (Shifting bounds restriction, Discretizing feasible values, HyperCube space, Sparse '
+             'placeholders, SwitchExperimenter conditional space), DiscretizingExperimenter.create_with_grid, SparseExperimenter.create, experimenter_factory, '
+             'benchmark_runner, surrogate / HPOB / NASBench / combo / L1-categorical experimenters; NoisyExperimenter noise models (only determinism given a seed).')
+    chk.note('COMPOSITION: every wrapper W is proved to re-establish BaseContract for W(e) from BaseContract for e (evaluate.completes + '
+             'evaluate.parameters_unchanged|parameters_restored + evaluate.frame + problem_statement.by_value.* + problem_statement.metrics_of_wrapped_experimenter), '
+             'so the clauses hold for every finite stacking of SignFlip, Shifting, Permuting, Discretizing, Sparse, Noisy, Normalizing over any experimenter '
+             'satisfying BaseContract; HyperCube / HashingInfeasible / ParamRegionInfeasible / Switch only outside their recorded findings.')
+
+
 # =========================================================================================== main
 def all_units():
-    return units_signflip() + units_transformers() + units_numpy() + units_infeasible_hypercube() + units_normalizing() + units_noisy() + units_permuting_bijection() + units_problem_statement()
+    return units_signflip() + units_transformers() + units_numpy() + units_infeasible_hypercube() + units_normalizing() + units_noisy() + units_permuting_bijection() + units_switch() + units_problem_statement()
 
 
 def main(tier):
@@ -2288,10 +2409,14 @@ def main(tier):
     except Exception as e:
         import traceback
         chk.error('C20.Noisy.readframe', 'checker crashed: %r\n%s' % (e, traceback.format_exc()[-1200:]))
+    try:
+        native_notes(chk)
+    except Exception as e:
+        chk.note('native notes could not be produced: %r' % (e,))
     for u in all_units():
         try:
             run_unit(chk, u)
         except Exception as e:      # a crash of the checker is a checker error, never a verdict
             import traceback
             chk.error('C20.%s.checker' % u.label, 'checker crashed: %r\n%s' % (e, traceback.format_exc()[-1200:]))
-    return chk.finish(min_obligations=10)
+    return chk.finish(min_obligations=250)
